@@ -3,6 +3,7 @@ import itertools
 import os
 import tempfile
 from engine.ob import REPO_SRC  # noqa: E402
+from engine.ob import pick as _pick, flag as _flag  # noqa: F401
 from engine.ob import Obligation, post, reset_tally_caches
 
 LEVEL = 'other'
@@ -128,7 +129,7 @@ def migration(cmd, mode, state=None):
         post: _
         """
         from engine import fsx
-        k, partial = int(k), int(partial)
+        k, partial = int(k), int(partial)      # stay symbolic: every index past the last effect is ONE path
         if state is not None:
             has_settings, has_bak, has_rules = state
         if mode == 'fault':
